@@ -134,6 +134,7 @@ def run(ctx):
     ctx.guard(rule_b, ctx, ix, f)
     ctx.guard(rule_c, ctx, ix, f)
     ctx.guard(rule_d, ctx, ix)
+    ctx.guard(rule_h, ctx, ix)
     # the buffer follows the links each dataset installed: a link replaced behind the "unchanged" shortcut is never installed
     from ..report import BorrowedCtx
     from .C03 import rule_e as _shortcut
@@ -592,3 +593,27 @@ def rule_d(ctx, ix):
     ok = 'cache_id' in sa_ and sa_['cache_id'] == sb.get('cache_id') and 'uuid' in sa_['cache_id']
     ctx.ob(R, f.construct + ' cache id', 'the cache id is the layer state\'s own uuid', ok,
            detail='cache_id is %s / %s' % (sa_.get('cache_id'), sb.get('cache_id')), where=where(f, a))
+
+
+def rule_h(ctx, ix):
+    """translate_pixel follows a link through all of its inputs and collects, side by side, the translated values and the pixel
+    dimensions they depend on.  Both collections are filled once per input, inside the loop: dimensions collected from the last
+    input only make the buffer constant along axes it depends on."""
+    R = 'C16.h'
+    ctx.describe(R, 'translate_pixel collects values and dimensions of every input of a link (both inside the loop)', floor=2)
+    f = ix.func('glue.core.fixed_resolution_buffer.translate_pixel')
+    loops = [lp for lp in ast.walk(f.node) if isinstance(lp, ast.For) and any(call_name(c) == 'translate_pixel' for c in calls_in(lp))]
+    if len(loops) != 1:
+        raise AnalysisError('translate_pixel: the loop over the inputs of the link is no longer recognised')
+    lp = loops[0]
+    got = [st for st in lp.body if isinstance(st, ast.Assign) and isinstance(st.value, ast.Call) and call_name(st.value) == 'translate_pixel']
+    if len(got) != 1 or not isinstance(got[0].targets[0], ast.Tuple):
+        raise AnalysisError('translate_pixel: the recursive call is no longer unpacked into (values, dimensions)')
+    names = [unparse(t) for t in got[0].targets[0].elts]
+    for nm in names:
+        inside = [c for c in calls_in(lp) if call_name(c) in ('append', 'extend', 'update', 'add') and any(unparse(a) == nm for a in c.args)]
+        aug = [st for st in ast.walk(lp) if isinstance(st, ast.AugAssign) and nm in [x.id for x in ast.walk(st.value) if isinstance(x, ast.Name)]]
+        ctx.ob(R, '%s %s' % (f.construct, nm), '`%s` of every input is collected inside the loop' % nm, bool(inside or aug),
+               detail='translate_pixel no longer collects `%s` inside its loop over the inputs of the link: only what the last input '
+                      'returned is kept, so for a link with several inputs the buffer ignores the pixel dimensions (or values) of the '
+                      'others' % nm, where=where(f, lp))
